@@ -184,6 +184,7 @@ fn msg_stats_into(m: &mut BTreeMap<String, u64>, s: &MsgStats) {
     m.insert("publishes_checked".into(), s.publishes_checked);
     m.insert("nonempty_publishes".into(), s.nonempty_publishes);
     m.insert("outside_workspace_skipped".into(), s.outside_workspace_skipped);
+    m.insert("racy_state_skipped".into(), s.racy_skipped);
     m.insert("uris_converged".into(), s.uris_converged);
     m.insert("file_left_workspace_and_was_cleared".into(), s.left_workspace);
     m.insert("fixed_problem_cleared".into(), s.cleared_after_fix);
